@@ -122,6 +122,10 @@ def run(eng, ctx):
     # ---------------- D2 one construction site
     ctx.rule("C16.D2", "the label is table.get(signal ID, default)[k] with k chosen by the option alone")
     label_exprs = [(e, e.term[3][0]) for e in appends] + [(next((x for x in se.effects if x.loops and x.loops[-1] == ct[3]), se.effects[0]), ct[2]) for ct in sorted(label_comps, key=repr)]
+    if by_form:
+        # the label as it ends up in the cell map (component 1 of the entries of its normal form), however many intermediate lists it went through
+        anchor_ = type("E", (), {"node": mb.node})()
+        label_exprs = [(anchor_, mf["cell"][1].elt[1][1])]
     for e, lexpr in label_exprs:
         alts = leaves(lexpr)
         gets = set()
